@@ -384,7 +384,9 @@ class Continuum:
         """
         self.bound_inf = min((next(iter(annotations)).segment.start for annotations in self._annotations.values() if annotations),
                              default=0.0)
-        self.bound_sup = max((next(reversed(annotations)).segment.end for annotations in self._annotations.values() if annotations),
+        # the last unit of an annotator (in (start, end) order) is not necessarily the one that ends last
+        self.bound_sup = max((max(unit.segment.end for unit in annotations)
+                              for annotations in self._annotations.values() if annotations),
                              default=0.0)
 
     def add_textgrid(self,
